@@ -343,6 +343,15 @@ type MultiGetPlan struct {
 func NewMultiGetPlan(s Storage, f *FilterExec, keys []string) Plan {
 	// We should sort keys to ensure order by erase works correctly
 	sort.Strings(keys)
+	// A key listed more than once must be read (and returned, or deleted) once
+	n := 0
+	for _, key := range keys {
+		if n == 0 || key != keys[n-1] {
+			keys[n] = key
+			n++
+		}
+	}
+	keys = keys[:n]
 	return &MultiGetPlan{
 		Storage: s,
 		Filter:  f,
